@@ -230,7 +230,7 @@ def features(ctx, rep):
     for cfg in cfgs_for(ctx):
         P = ctx.prog(cfg)
         if cfg not in rep.configs: rep.configs.append(cfg)
-        fe = P.fn('polyseed_enable_features'); fs = P.fn('polyseed_features_supported')
+        fe = P.fn('polyseed_enable_features'); fs = feature_predicate(P)
         # the static consulted by the predicate
         I = Interp(P); st = State()
         outs = I.run(fs, [I.V.bv('f', 32)], st)
@@ -244,36 +244,23 @@ def features(ctx, rep):
         G = gl[0]
         g0 = get(st, G, 0, 4).concrete()
         rep.check(g0 == 15, 'initial reserved mask = 15 (user bits 0-2 and internal bit 3 reserved, encrypted bit supported)', loc_of(fs), G, detail=g0, key='FEAT-MASK|init')
-        I = Interp(P); st = State()
-        I.global_obj(st, G[2:])
-        put(st, G, 0, I.V.bv('old', 32))           # arbitrary previous state: must not matter
-        m = I.V.bv('mask', 32)
-        outs = I.run(fe, [m], st)
-        rep.check(2 <= len(outs) <= 8 or len(outs) == 1, 'enable_features partitions on the low mask bits (%d partitions)' % len(outs), loc_of(fe), fe.name, key='FEAT-MASK|partitions')
-        seen = set()
-        for o in outs:
-            lo = [o.state.cons.reduce(m.bits[j]) for j in range(3)]
-            val = get(o.state, G, 0, 4); ret = o.ret
-            if all(is_const(b) for b in lo):
-                mv = lo[0] | (lo[1] << 1) | (lo[2] << 2); seen.add(mv)
+        # one abstract run per value of the three low mask bits (concrete), all higher mask bits and the previous state symbolic
+        for mv in range(8):
+            I = Interp(P); st = State()
+            I.global_obj(st, G[2:])
+            put(st, G, 0, I.V.bv('old', 32))           # arbitrary previous state: must not matter
+            m = BV([(mv >> j) & 1 for j in range(3)] + I.V.bv('mask.hi', 29).bits)
+            try:
+                outs = I.run(fe, [m], st)
+            except RecursionError:
+                raise AnalysisBroken('polyseed_enable_features does not terminate in the abstract domain for mask&7 = %d' % mv)
+            rep.check(len(outs) >= 1, 'enable_features returns for mask&7 = %d' % mv, loc_of(fe), fe.name, key='FEAT-MASK|partitions')
+            for o in outs:
+                val = get(o.state, G, 0, 4); ret = o.ret
                 ok = val.concrete() == 15 ^ mv and ret.concrete() == bin(mv).count('1')
-                rep.check(ok, 'mask&7 = %d: reserved = %d, returns %d' % (mv, 15 ^ mv, bin(mv).count('1')), loc_of(fe), 'enable_features partition mask&7=%d' % mv,
+                rep.check(ok, 'mask&7 = %d (higher mask bits and previous state arbitrary): reserved = %d, returns %d' % (mv, 15 ^ mv, bin(mv).count('1')), loc_of(fe), 'enable_features with mask&7=%d' % mv,
                           detail={'reserved': I.V.show_bv(val)[:6], 'ret': I.V.show_bv(ret)[:4]}, sample={'mask&7': mv, 'reserved': val.concrete(), 'returns': ret.concrete()},
                           key='FEAT-MASK|part%d' % mv)
-            else:
-                # merged partitions: check affine forms
-                exp = [bxor(1, m.bits[0]), bxor(1, m.bits[1]), bxor(1, m.bits[2]), 1] + [0] * 28
-                rep.check([o.state.cons.reduce(b) for b in val.bits] == [o.state.cons.reduce(b) for b in exp], 'reserved = 15 ^ (mask & 7) (affine form)', loc_of(fe), fe.name,
-                          detail=I.V.show_bv(val)[:6], key='FEAT-MASK|affine')
-        if seen:
-            rep.check(seen == set(range(8)), 'all 8 values of mask&7 covered by the partitions', loc_of(fe), fe.name, detail=sorted(seen), key='FEAT-MASK|cover')
-        dm = 0
-        for o in outs:
-            for b in get(o.state, G, 0, 4).bits + (o.ret.bits if o.ret else []): dm |= deps(b)
-            for (mm, c) in o.state.cons.rows.values(): dm |= mm
-        names = I.V.show_mask(dm)
-        rep.check(all(n in ('mask.0', 'mask.1', 'mask.2') for n in names), 'result depends on mask bits 0-2 only (not on higher bits, not on the previous state)',
-                  loc_of(fe), fe.name, detail=names, key='FEAT-MASK|deps')
 
         rep.rule('FEAT-PRED', 'polyseed_features_supported(f) == ((f & reserved) == 0) for each of the 8 reachable values of the static; '
                  'make_features(u) = u & 7; get_features(f, m) = f & m & 7; is_encrypted(f) = bit 4 of f; polyseed_get_feature / polyseed_is_encrypted '
@@ -288,10 +275,12 @@ def features(ctx, rep):
             ok = len(outs) >= 1
             if len(outs) == 1 and outs[0].ret.concrete() is None:
                 r = outs[0].ret
-                if len(want) == 1: ok = r.bits[0] == bnot(want[0])
+                nzb = [b_ for b_ in r.bits if b_ != 0]
+                if len(want) == 1 and r.bits[0] == bnot(want[0]) and all(b_ == 0 for b_ in r.bits[1:]): ok = True          # boolean "supported"
+                elif sorted(map(repr, nzb)) == sorted(map(repr, want)): ok = True      # the offending bits themselves (zero = supported): the callers' reading is decided by the exit summaries
                 else:
                     zi = r.zero_iff
-                    ok = zi is not None and zi[0] == 'allzero' and not zi[2] and sorted(map(repr, zi[1])) == sorted(map(repr, want))
+                    ok = zi is not None and zi[0] == 'allzero' and sorted(map(repr, zi[1])) == sorted(map(repr, want))
             else:
                 # partitioned form (early returns / per-bit tests): exactly one partition answers "supported", it is constrained by exactly
                 # "every reserved bit of f is 0", and every other partition answers "not supported"
@@ -503,7 +492,37 @@ def _phrase_summaries(I, status):
     return {'polyseed_phrase_decode': pd, 'polyseed_phrase_decode_explicit': pde}
 
 
+def feature_mask_global(P):
+    """the enabled-feature state: the one mutable global polyseed_enable_features writes ('g:<name>')"""
+    from .rules_effects import written_pointers, mutable_globals
+    pts = P.points_to(); M = mutable_globals(P); out = set()
+    for n in P.reachable_from(['polyseed_enable_features']):
+        f = P.defined.get(n)
+        if f is None: continue
+        for i in f.all_insts():
+            for ptr in written_pointers(P, f, i):
+                out |= {o[1] for o in pts.of(f, ptr) if o[0] == 'global' and o[1] in M}
+    if len(out) != 1: raise AnalysisBroken('polyseed_enable_features writes %d mutable globals (expected the one feature mask)' % len(out))
+    return 'g:' + out.pop()
+
+
+def feature_predicate(P):
+    """the function that tests a feature word against the mask: the library function (other than the enabling call) that loads the mask global"""
+    G = feature_mask_global(P)[2:]
+    pts = P.points_to(); en = set(P.reachable_from(['polyseed_enable_features']))
+    cands = []
+    for f in P.defined.values():
+        if f.name in en: continue
+        if any(i.op == 'load' and ('global', G) in pts.of(f, i.ops[0]) for i in f.all_insts()): cands.append(f)
+    if len(cands) != 1: raise AnalysisBroken('%d functions read the feature mask (expected one predicate): %s' % (len(cands), [c.name for c in cands]))
+    return cands[0]
+
+
 def _reserved_symbolic(I, P, st):
+    return feature_mask_global(P)
+
+
+def _reserved_symbolic_old(I, P, st):
     """make the feature predicate's static symbolic but of the reachable shape: bits 0-2 free, bit 3 = 1, others 0"""
     fs = P.fn('polyseed_features_supported')
     I0 = Interp(P); s0 = State(); I0.run(fs, [I0.V.bv('f', 32)], s0)
